@@ -321,6 +321,30 @@ pub fn run(tier: Tier) -> i32 {
             }
         }
     });
+    // the lacking instruction is not the last thing of the program: further code segments (an
+    // .org, a round trip through .dseg / .eseg), data, a macro call and an included-style block
+    // follow it - the build fails all the same; an instruction the device has stays accepted
+    let n_followed = AtomicU64::new(0);
+    work.par_iter().for_each(|(d, fm)| {
+        let gone = removed_by(fm, &d.flags);
+        let c = &fm.variants[0];
+        for (bi, behind) in [".org 0x10\nnop\n", ".dseg\n.cseg\nnop\n", ".cseg\nnop\n.cseg\nnop\n", ".org 0x10\nnop\n.org 0x18\nnop\n.org 0x1c\n.dw 1\n", "nop\n.org 0x10\nnop\n"].iter().enumerate() {
+            for lead in ["", "nop\n.org 0x8\n"] {
+                let src = format!(".device {}\n{}{}\n{}", d.name, lead, c.text(), behind);
+                let o = sut::build_str(&src);
+                evals.fetch_add(1, Ordering::Relaxed);
+                n_followed.fetch_add(1, Ordering::Relaxed);
+                let bad = match (gone, &o) {
+                    (Some(flag), Outcome::Ok(b)) => Some((format!("C13/ungated-when-followed-by-more-code/flag={}/form={}/device={}", flag, fm.name, d.name), format!("{} lacks `{}` (flag {}) but followed by `{}` the program assembles to {}", d.name, fm.name, flag, behind.trim().replace('\n', " / "), sut::hex_trunc(&b.code, 16)))),
+                    (None, Outcome::Err(e)) if nodev.contains_key(&c.text()) && d.flash_words > 0x20 => Some((format!("C13/over-rejected-when-followed-by-more-code/form={}/device={}/behind={}", fm.name, d.name, bi), format!("{} has `{}` but followed by `{}` it is rejected: {}", d.name, fm.name, behind.trim().replace('\n', " / "), e))),
+                    _ => None,
+                };
+                if let Some((key, what)) = bad {
+                    rep.violation(&key, || what, || json!({"kind": "build_str", "source": src, "observed": o.to_json()}));
+                }
+            }
+        }
+    });
     // pragmas and listing directives (as the shipped part definition files carry them) in front of
     // and behind the instruction: none of them changes what the device has. Only the lines the
     // tool accepts at all are used (decided on a program without a device).
@@ -550,6 +574,7 @@ pub fn run(tier: Tier) -> i32 {
         "two_instruction_programs": n_pairs.load(Ordering::Relaxed),
         "lds_sts_over_the_address_space_programs": n_lds_space.load(Ordering::Relaxed),
         "instruction_after_csegsize_or_segment_directives_programs": n_after_directive.load(Ordering::Relaxed),
+        "instruction_followed_by_further_code_segments_programs": n_followed.load(Ordering::Relaxed),
         "instruction_near_pragma_or_listing_lines_programs": n_pragma.load(Ordering::Relaxed),
         "pragma_or_listing_lines_used": pragma_lines,
         "jumps_around_an_available_instruction_programs": n_between.load(Ordering::Relaxed),
